@@ -6,6 +6,7 @@ package rig
 
 import (
 	"context"
+	"strings"
 	"fmt"
 	"net"
 	"sort"
@@ -120,6 +121,33 @@ func uvals(fs []*pb.FieldData) []uint64 {
 	return out
 }
 
+var (
+	allMu sync.Mutex
+	// AllBessd lists every server of this process (diagnostics).
+	AllBessd []*Bessd
+)
+
+// FindKey reports which servers of this process logged a command whose key contains sub.
+func FindKey(sub string) string {
+	allMu.Lock()
+	defer allMu.Unlock()
+	out := ""
+	for i, b := range AllBessd {
+		b.mu.Lock()
+		n := 0
+		for _, c := range b.log {
+			if strings.Contains(c.Key, sub) {
+				n++
+			}
+		}
+		b.mu.Unlock()
+		if n > 0 {
+			out += fmt.Sprintf(" [bessd#%d %s: %d commands]", i, b.Addr, n)
+		}
+	}
+	return out
+}
+
 // NewBessd starts a server on addr ("127.0.0.1:0" picks a port).
 func NewBessd(addr string) (*Bessd, error) {
 	lis, err := net.Listen("tcp", addr)
@@ -127,6 +155,9 @@ func NewBessd(addr string) (*Bessd, error) {
 		return nil, err
 	}
 	b := &Bessd{lis: lis, Addr: lis.Addr().String()}
+	allMu.Lock()
+	AllBessd = append(AllBessd, b)
+	allMu.Unlock()
 	b.reset()
 	b.FailNext = map[string]int{}
 	b.serve()
